@@ -478,8 +478,6 @@ PPL::CO_Tree::insert_precise_aux(const dimension_type key1,
   PPL_ASSERT(!is_greater_than_ratio(size_ + 1, reserved_size,
                                     max_density_percent));
 
-  ++size_;
-
   if (!itr.is_leaf()) {
     if (key1 < itr.index()) {
       itr.get_left_child();
@@ -490,10 +488,13 @@ PPL::CO_Tree::insert_precise_aux(const dimension_type key1,
     PPL_ASSERT(itr.index() == unused_index);
 
     new(&(*itr)) data_type(data1);
-    // Set the index only if the construction was successful.
+    // Set the index and count the element only if the construction
+    // was successful.
     itr.index() = key1;
+    ++size_;
   }
   else {
+    ++size_;
     itr = rebalance(itr, key1, data1);
     itr.go_down_searching_key(key1);
     PPL_ASSERT(itr.index() == key1);
